@@ -174,8 +174,8 @@ impl BoxedServerService {
     /// [C07] only right after it reported ready; [C01] only with a stream accepted on its own listener
     #[verifier::external_body]
     pub fn call(&mut self, req: (WorkerCounterGuard, MioStream)) -> (r: ReadyFut)
-        requires old(self).last_ready(),
-                 req.1.origin() == old(self).token(),
+        requires old(self).last_ready(),   // [C07]
+                 req.1.origin() == old(self).token(),   // [C01]
         ensures final(self).token() == old(self).token(),
                 final(self).calls() == old(self).calls().push(req.1),
                 final(self).polls() == old(self).polls(),
@@ -439,31 +439,31 @@ impl ServerWorker {
     requires
         old(self).wf(),
     ensures
-        !(r is Ready) ==> final(self).wf(),
-        final(self).table_wf(),
+        !(r is Ready) ==> final(self).wf(),   // [C07]
+        final(self).table_wf(),   // [C01,C07]
         final(self).factories == old(self).factories && final(self).shutdown_timeout == old(self).shutdown_timeout,
         final(self).counter.spec_total() == old(self).counter.spec_total(),
         // every connection taken from the channel gets exactly one guard (it is served or released, never leaked) [C01,C02]
-        final(self).counter.guards() - old(self).counter.guards()
+        final(self).counter.guards() - old(self).counter.guards()   // [C01,C02]
             == final(self).conn_rx.received().len() - old(self).conn_rx.received().len(),
         old(self).conn_rx.received().len() <= final(self).conn_rx.received().len(),
         old(self).stop_rx.received().len() <= final(self).stop_rx.received().len(),
         // a worker that is shutting down never serves: queued connections are released, not served   [C01,C06]
-        old(self).state is Shutdown ==> forall|k: int| 0 <= k < old(self).services@.len() ==>
+        old(self).state is Shutdown ==> forall|k: int| 0 <= k < old(self).services@.len() ==>   // [C01,C06]
             (#[trigger] final(self).services@[k]).service.calls() == old(self).services@[k].service.calls(),
         // Stop on an idle worker, or a forced Stop, completes at once: no waiting for connections   [C06]
-        got_stop(old(self), final(self)) && (old(self).counter.spec_total() == 0 || !first_stop(old(self), final(self)).graceful)
+        got_stop(old(self), final(self)) && (old(self).counter.spec_total() == 0 || !first_stop(old(self), final(self)).graceful)   // [C06]
             ==> r is Ready,
         // a graceful Stop with connections in progress waits: the worker enters Shutdown and stays pending   [C06]
-        got_stop(old(self), final(self)) && old(self).counter.spec_total() > 0 && first_stop(old(self), final(self)).graceful
+        got_stop(old(self), final(self)) && old(self).counter.spec_total() > 0 && first_stop(old(self), final(self)).graceful   // [C06]
             ==> r is Pending && final(self).state is Shutdown,
         // a worker in graceful shutdown completes only at a timer tick at which it is idle or its shutdown_timeout
         // has elapsed   [C06]
-        old(self).state is Shutdown && !got_stop(old(self), final(self)) && r is Ready ==> {
+        old(self).state is Shutdown && !got_stop(old(self), final(self)) && r is Ready ==> {   // [C06]
             &&& now_spec() >= sh_deadline(old(self).state)
             &&& (old(self).counter.spec_total() == 0 || elapsed_since(sh_start(old(self).state)) >= old(self).shutdown_timeout.ns())
         },
-        old(self).state is Shutdown && !got_stop(old(self), final(self)) && now_spec() >= sh_deadline(old(self).state)
+        old(self).state is Shutdown && !got_stop(old(self), final(self)) && now_spec() >= sh_deadline(old(self).state)   // [C06]
             && (old(self).counter.spec_total() == 0 || elapsed_since(sh_start(old(self).state)) >= old(self).shutdown_timeout.ns()) ==> r is Ready,
 //@insert after="Some(msg) => {"
                         let ghost pre_sv = self.services@;
@@ -472,15 +472,15 @@ impl ServerWorker {
                         assert(self.all_ready());   // [C07] called only right after every service reported ready
 //@insert arm_end="Some(msg) =>"
                         // exactly one call, on the service registered for the connection's listener, with its stream  [C01]
-                        assert(self.services@[tok0].service.calls() == pre_sv[tok0].service.calls().push(io0));
-                        assert(only_changed(self.services@, pre_sv, tok0));
+                        assert(self.services@[tok0].service.calls() == pre_sv[tok0].service.calls().push(io0));   // [C01]
+                        assert(only_changed(self.services@, pre_sv, tok0));   // [C01]
 //@loop head="while let Poll::Ready(Some(conn)) = self.conn_rx.poll_recv(cx)"
         invariant
             self.services == sv_after && self.factories == old(self).factories && self.shutdown_timeout == old(self).shutdown_timeout,
             WorkerState::Shutdown(*shutdown) == st_sh,
             self.stop_rx == stop_after,
             self.counter.spec_total() == old(self).counter.spec_total(),
-            self.counter.guards() - old(self).counter.guards() == self.conn_rx.received().len() - old(self).conn_rx.received().len(),
+            self.counter.guards() - old(self).counter.guards() == self.conn_rx.received().len() - old(self).conn_rx.received().len(),   // [C01,C02]
             old(self).conn_rx.received().len() <= self.conn_rx.received().len(),
 //@loop head="loop"
         invariant
@@ -489,7 +489,7 @@ impl ServerWorker {
             self.stop_rx == stop_after,
             old(self).state is Available || old(self).state is Unavailable || old(self).state is Restarting,
             self.counter.spec_total() == old(self).counter.spec_total(),
-            self.counter.guards() - old(self).counter.guards() == self.conn_rx.received().len() - old(self).conn_rx.received().len(),
+            self.counter.guards() - old(self).counter.guards() == self.conn_rx.received().len() - old(self).conn_rx.received().len(),   // [C01,C02]
             old(self).conn_rx.received().len() <= self.conn_rx.received().len(),
 //@insert before="match self.state {"
         let ghost stop_after = self.stop_rx;
